@@ -54,7 +54,7 @@ class C04(Prop):
         "index tensors hold integer data (boolean arrays are numpy masks, not indices)",
         "Gaussian leaves occur inside the generated lazy terms (dense -1/2||xS-w||^2 oracle); Delta f is exercised by C14",
     )
-    cases = {"quick": 4000, "thorough": 150000}
+    cases = {"quick": 6000, "thorough": 150000}
 
     def strategy(self, tier):
         d = 2 if tier == "quick" else 3
